@@ -3,6 +3,7 @@
    Statements only; every proof is [exact <lemma>].  All theorems hold for EVERY hash
    function H and every list (no size bound). *)
 From BV Require Import Common.Base Common.Hash Model.Merkle Spec.Merkle Proofs.Merkle Gen.Core.
+From BV Require Import Common.Tx Spec.Wire Model.Wire Model.Weight Proofs.Weight.
 
 (* merkle root of every non-empty list of txids = reference algorithm (adjacent pairs, last
    node paired with itself on odd levels, single id => itself); build_merkle_tree_from_txids(l)[-1] *)
@@ -148,6 +149,19 @@ Proof.
   intros [a b]. unfold toy_null, toy_full, toy_stripped. cbn [fst snd]. intros ->. reflexivity.
 Qed.
 
+(* ---------- weights instantiated with the wire model (Model/Wire.v, C01) ---------- *)
+(* transaction weight = 3 * witness-stripped size + full size, for every transaction with
+   at least one input and one output; the two asserts otherwise *)
+Theorem C15_tx_weight : forall t, tx_vin t <> [] -> tx_vout t <> [] ->
+  tx_calc_weight t = Ok (3 * lenZ (wire_tx_stripped t) + lenZ (wire_tx t)).
+Proof. exact tx_weight. Qed.
+Theorem C15_tx_weight_assert : forall t, tx_vin t = [] \/ tx_vout t = [] -> tx_calc_weight t = Err AssertionError.
+Proof. exact tx_weight_assert. Qed.
+(* block weight likewise, for every block whose header fields are in wire range *)
+Theorem C15_block_weight : forall b, wf_header (b_hdr b) ->
+  block_get_weight b = 3 * lenZ (wire_block_stripped b) + lenZ (wire_block b).
+Proof. exact block_weight. Qed.
+
 Print Assumptions C15_merkle_root.
 Print Assumptions C15_block_merkle_root.
 Print Assumptions C15_spec_equations.
@@ -162,3 +176,6 @@ Print Assumptions C15_commitment_index.
 Print Assumptions C15_weight_param.
 Print Assumptions C15_weight_assert.
 Print Assumptions C15_block_weight_param.
+Print Assumptions C15_tx_weight.
+Print Assumptions C15_tx_weight_assert.
+Print Assumptions C15_block_weight.
